@@ -39,6 +39,10 @@ def plan(tier: str, seed: int) -> List[Dict[str, Any]]:
         out.append({'kind': 'async-python', 'seed': seed, 'shard': i, 'cases': 12 if quick else 120, 'trials': 60, 'timeout_s': 1500 if quick else 7200})
     for i in range(3 if quick else 8):
         out.append({'kind': 'async-native', 'seed': seed, 'shard': i, 'cases': 8 if quick else 60, 'timeout_s': 1500 if quick else 7200})
+    long_configs = [{'engine': 'native'}] if quick else [{'engine': 'native'}, {'engine': 'native', 'ring': 5}, {'engine': 'native', 'no_flat': True},
+                                                          {'engine': 'native', 'measure': True}]
+    for i, config in enumerate(long_configs):
+        out.append({'kind': 'long-run', 'seed': seed, 'shard': i, 'configs': [config], 'timeout_s': 3000})
     return out
 
 
@@ -217,6 +221,86 @@ def shard_sync(spec: Dict[str, Any], journal: Any) -> Dict[str, Any]:
     engines.cleanup_tmpdir()
     return {'counters': counters, 'violations': violations[:60], 'hashes': hashes, 'samples': samples,
             'evaluations': counters.get('monitor_evaluations', 0)}
+
+
+
+# ------------------------------------------------------------------------------ a run of more than 2^32 ops before the stop
+def shard_long_run(spec: Dict[str, Any], journal: Any) -> Dict[str, Any]:
+    """a loop of L ops, one of which writes an output bit; the device interrupts at its K-th call, with K*L beyond 2^32 ops.
+    the op count of call k is a + k*L (measured on the reference machine for the first calls, which the engine must also
+    reproduce), so the count after billions of ops is known without the reference walking them."""
+    rng = rng_for(spec['seed'], PROPERTY, 'long-run', spec['shard'])
+    counters: Dict[str, Any] = {}
+    violations: List[Dict[str, Any]] = []
+    w = 64
+    loop_ops = 16384
+    first = 4                                   # word of the first loop op (op 0 jumps over the input/output op at word 2)
+    scratch = first + 2 * loop_ops + 1          # a data word behind the loop
+    out_at = rng.randrange(loop_ops)
+    mem: Dict[int, int] = {0: scratch * w, 1: first * w, 2: 0, 3: 0}
+    for i in range(loop_ops):
+        word = first + 2 * i
+        mem[word] = 2 * w if i == out_at else scratch * w + (i % w)
+        mem[word + 1] = (first + 2 * ((i + 1) % loop_ops)) * w
+    mem[scratch - 1], mem[scratch] = 0, 0
+    case = {'w': w, 'segments': [[0, scratch + 1]], 'mem': [[k, v] for k, v in sorted(mem.items())], 'input': '', 'geom': 'long-loop', 'cuts': []}
+    per_call = []
+    for k in range(3):
+        ref, _direction, reached = ref_with_fault(case, k, None)
+        if not reached:
+            return {'counters': counters, 'violations': [], 'hashes': [], 'samples': [], 'evaluations': 0,
+                    'inconclusive': ['long-run: the reference machine did not reach the output op']}
+        per_call.append(ref.ops)
+    if per_call[1] - per_call[0] != loop_ops or per_call[2] - per_call[1] != loop_ops:
+        return {'counters': counters, 'violations': [], 'hashes': [], 'samples': [], 'evaluations': 0,
+                'inconclusive': [f'long-run: op counts of the first calls are not linear: {per_call}']}
+    path = engines.tmpdir() / 'c18long.fjm'
+    engines.write_case(case, path, 1)
+    beyond = (1 << 32) // loop_ops + rng.randrange(1, 40)
+    samples: List[Any] = []
+    for config in spec['configs']:
+        for k in (1, beyond):
+            def on_call(device: Any, d: str, index: int, k: int = k) -> Any:
+                if index == k:
+                    raise KeyboardInterrupt()
+                return None
+            Device = engines.make_recording_device()
+            device = Device(b'', on_call=on_call)
+            device.log = _CountingLog()           # (hundreds of thousands of identical entries: counted, not kept)
+            journal.note({'long-run': engines.config_label(config), 'k': k, 'out_at': out_at})
+            obs = engines.run_engine(path, config, device, watchdog_s=900.0)
+            counters['monitor_evaluations'] = counters.get('monitor_evaluations', 0) + 1
+            want = per_call[0] + k * loop_ops
+            label = engines.config_label(config)
+            if obs['cause'] == 'harness-interrupt':
+                counters['long_runs_cut_by_the_watchdog'] = counters.get('long_runs_cut_by_the_watchdog', 0) + 1
+                continue
+            if k == beyond:
+                counters['runs_beyond_2^32_ops'] = counters.get('runs_beyond_2^32_ops', 0) + 1
+                counters['largest_op_count_checked'] = max(counters.get('largest_op_count_checked', 0), want)
+            if obs['cause'] != 'keyboard-interrupt':
+                violations.append({'key': 'classification/interrupt', 'what': f'{label}: interrupt at call {k} of a long loop gave {obs["cause"]} {obs.get("exc")}',
+                                   'replay': {'kind': 'long-run', 'out_at': out_at, 'k': k, 'config': config}})
+            elif obs['ops'] != want:
+                violations.append({'key': 'op-count/long-run', 'what': f'{label}: interrupt at call {k}: {obs["ops"]} ops reported, {want} executed '
+                                                                         f'(difference {want - obs["ops"]})',
+                                   'replay': {'kind': 'long-run', 'out_at': out_at, 'k': k, 'config': config}})
+            elif device.calls != k + 1 or device.log.count != k:
+                violations.append({'key': 'io-record', 'what': f'{label}: long loop: device saw {device.calls} calls ({device.log.count} completed), want {k + 1} ({k})',
+                                   'replay': {'kind': 'long-run', 'out_at': out_at, 'k': k, 'config': config}})
+            if k == beyond and not samples:
+                samples.append({'long_run': label, 'loop_ops': loop_ops, 'interrupted_at_call': k, 'ops_reported': obs['ops'], 'ops_expected': want})
+    engines.cleanup_tmpdir()
+    return {'counters': counters, 'violations': violations, 'hashes': [case_hash([out_at, beyond])], 'samples': samples,
+            'evaluations': counters.get('monitor_evaluations', 0)}
+
+
+class _CountingLog:
+    def __init__(self) -> None:
+        self.count = 0
+
+    def append(self, entry: Any) -> None:
+        self.count += 1
 
 
 # ------------------------------------------------------------------------------ asynchronous interrupts
@@ -542,7 +626,7 @@ def shard_async_python(spec: Dict[str, Any], journal: Any) -> Dict[str, Any]:
 
 
 def run_shard(spec: Dict[str, Any], journal: Any) -> Dict[str, Any]:
-    return {'sync': shard_sync, 'async-native': shard_async_native, 'async-python': shard_async_python}[spec['kind']](spec, journal)
+    return {'sync': shard_sync, 'long-run': shard_long_run, 'async-native': shard_async_native, 'async-python': shard_async_python}[spec['kind']](spec, journal)
 
 
 def replay_case(record: Dict[str, Any], journal: Any) -> Dict[str, Any]:
@@ -576,6 +660,8 @@ def finalize(tier: str, seed: int, counters: Dict[str, Any], evaluations: int, d
             inconclusive.append(f'fault class {f} never injected')
     if counters.get('async_python_interrupts', 0) < 50:
         inconclusive.append(f'only {counters.get("async_python_interrupts", 0)} asynchronous interrupts landed in the Python loops')
+    if not counters.get('runs_beyond_2^32_ops'):
+        inconclusive.append('no run of more than 2^32 ops was interrupted')
     if len([k for k in counters.get('async_native_op_counts', []) if k > 0]) < 1:
         inconclusive.append('no native asynchronous interrupt landed after the first poll (op count > 0)')
     return {
